@@ -106,9 +106,33 @@ Example C03_schedule_example :
   waits_b false s 0 = Some 1 /\ map (fun l => holds_b (b_w s) 0 l) [0; 1; 2] = [true; false; false].
 Proof. vm_compute. auto. Qed.
 
+
+(* interleaved model with pauses at call boundaries (a thread whose call has run to its end is a state of the system before
+   the call returns), every schedule: when the call hands the key back without a guard — guard dropped or unlocked, scoped
+   call returned or unwound, failed try, panic with a live guard — the thread holds nothing *)
+Theorem C03_every_schedule_key_back_holds_nothing :
+  forall b sched t o k out l, WpMain.wfB b = true ->
+  let sc := bs_sc b in
+  let s := fst (run_sched_g false false true (bs_wp b) (sc_env sc) (sc_nlocks sc) (binit b) sched) in
+  let th := get_thr (b_thr s) t in
+  th_over th = false -> th_cur th = Some (o, Op bpause_op k) -> k (VBool false) = term_of out ->
+  (match out with ODone _ | OPanic => True | _ => False end) ->
+  guard (fst (api_fin (sc_env sc) (th_loc th) o out)) = None ->
+  holds_b (b_w s) t l = false.
+Proof. exact WpMain.every_schedule_key_back_holds_nothing. Qed.
+
+(* non-vacuity: thread 1 of ex03b at the end of its guard drop *)
+Example C03_boundary_example :
+  WpMain.wfB ex03b = true /\
+  let s := fst (run_sched_g false false true false (sc_env (bs_sc ex03b)) 3 (binit ex03b) [1; 1; 1; 1; 1; 1; 1]) in
+  (match th_cur (get_thr (b_thr s) 1) with Some (AGuardDrop, Op (OKilled 1) k) => match k (VBool false) with Ret _ => true | _ => false end | _ => false end) = true /\
+  map (fun l => holds_b (b_w s) 1 l) [0; 1; 2] = [false; false; false].
+Proof. vm_compute. auto. Qed.
+
 Print Assumptions C03_guard_drop_releases_all.
 Print Assumptions C03_unlock_step.
 Print Assumptions C03_scoped_restores.
 Print Assumptions C03_no_self_wait.
 Print Assumptions C03_every_history.
 Print Assumptions C03_every_schedule_waits_with_own_locks_only.
+Print Assumptions C03_every_schedule_key_back_holds_nothing.
